@@ -31,7 +31,7 @@ Property clause → theorem
 * the same three limit-bid clauses ACROSS AUTO-FILLS by a Dutch auction (joint model `Model/LimitFill.lean`: book + auction +
   module account; every history of deposit / withdraw / cancel / market bid / begin-block, any number of bidders per premium):
     "recorded total = sum of deposits"           → `C11.fill_bidvalue_eq_sum_deposits_partial` (`= Σ + exact`; the clause itself is
-                                                    false after an exact fill: `C11.fill_bidvalue_exact_counterexample`, D36)
+                                                    false after an exact fill: `C11.fill_bidvalue_exact_counterexample`, D40)
     "fully held in custody"                      → `C11.fill_bidvalue_in_custody` (exact ledger with every remainder named),
                                                     `C11.fill_deposits_covered`; `C11.fill_overcharge_counterexample` (D24)
     "at most their own outstanding deposit"      → `C11.fill_withdraw_le_own_deposit`, `C11.fill_touches_only_the_bucket`
@@ -549,7 +549,7 @@ account held of the debt denomination at the start:
 
 Every term on the right except `over` is ≥ 0.  So the records are fully covered (`fill_deposits_covered`) unless money left the
 account that should not have: `short` (a reserve draw the close needed and did not get — C10's D23) and `esmOut` (`TriggerEsm` under
-shutdown — D35).  `over` is what fills debited from deposits beyond what the auction charged (D24: it stays in the account,
+shutdown — D39).  `over` is what fills debited from deposits beyond what the auction charged (D24: it stays in the account,
 claimed by no record); `P` after the close is what several bidders at one premium paid beyond the target (D7: stays as well). -/
 theorem fill_bidvalue_in_custody (je : JEnv) (hw : WfJEnv je) (a : Auc) (b : DutchV2.Bank) (r : Option Int)
     (hs : C10.Start je.e a) (ops : List LimitFill.Op) (hops : ∀ op ∈ ops, WfOpJ op) :
